@@ -43,9 +43,9 @@ theorem pump_ends_on_eof_readErr_writeErr (l : Loop) (held : Bytes) (pre post : 
 
 /-- Events after the one that ended a copy change nothing (the goroutine is gone): no byte is
 written after the half-close, and the half-close is not repeated. -/
-theorem nothing_after_the_end (cfg : Cfg) (ahead early : Bytes) (up more down : List Ev)
+theorem nothing_after_the_end (cfg : Cfg) (st : Nat) (ahead early : Bytes) (up more down : List Ev)
     (h : closes up = true) :
-    handleConnect cfg (.ok ahead) early (up ++ more) down = handleConnect cfg (.ok ahead) early up down := by
+    handleConnect cfg (.answered st ahead) early (up ++ more) down = handleConnect cfg (.answered st ahead) early up down := by
   have hc : closes (up ++ more) = true :=
     (closes_iff_exists_ending _).2 (by
       obtain ⟨e, he, hs⟩ := (closes_iff_exists_ending up).1 h
@@ -65,8 +65,8 @@ theorem nothing_after_the_end (cfg : Cfg) (ahead early : Bytes) (up more down : 
     endOf_append_of_closed up more h]
 
 /-- The handler's final close of either connection is graceful, and happens exactly at release. -/
-theorem final_close_is_graceful (cfg : Cfg) (ahead early : Bytes) (up down : List Ev) :
-    let o := handleConnect cfg (.ok ahead) early up down
+theorem final_close_is_graceful (cfg : Cfg) (st : Nat) (ahead early : Bytes) (up down : List Ev) :
+    let o := handleConnect cfg (.answered st ahead) early up down
     finalClose o.toTarget = (if o.released then some .graceful else none) ∧
     finalClose o.toClient = (if o.released then some .graceful else none) := by
   simp [handleConnect, handleConnectWith, upPump, downPump, run_shape, Pump.finished, closes]
@@ -75,18 +75,18 @@ theorem final_close_is_graceful (cfg : Cfg) (ahead early : Bytes) (up down : Lis
 the proxy closes (a target that reads slowly, an upload larger than every buffer), the target's
 application reads exactly the early data and everything the client sent, and then — iff the
 client→target copy has ended — end-of-stream; never a reset, never a shorter stream. -/
-theorem every_byte_before_close_reaches_target (cfg : Cfg) (ahead early : Bytes) (up down : List Ev)
+theorem every_byte_before_close_reaches_target (cfg : Cfg) (st : Nat) (ahead early : Bytes) (up down : List Ev)
     (lost : Nat) :
-    receive lost (handleConnect cfg (.ok ahead) early up down).toTarget =
+    receive lost (handleConnect cfg (.answered st ahead) early up down).toTarget =
       ⟨early ++ sentBy up, if closes up then .eof else .stillOpen⟩ := by
   cases hu : closes up <;> cases hd : closes down <;>
   simp [receive, handleConnect, handleConnectWith, upPump, downPump, run_shape, Pump.finished,
     writesOf_flatten, hu, hd, (show (endOf up).isSome = _ from hu), (show (endOf down).isSome = _ from hd)]
 
 /-- Target → client, with close kinds. -/
-theorem every_byte_before_close_reaches_client (cfg : Cfg) (ahead early : Bytes) (up down : List Ev)
+theorem every_byte_before_close_reaches_client (cfg : Cfg) (st : Nat) (ahead early : Bytes) (up down : List Ev)
     (lost : Nat) :
-    receive lost (handleConnect cfg (.ok ahead) early up down).toClient =
+    receive lost (handleConnect cfg (.answered st ahead) early up down).toClient =
       ⟨ahead ++ sentBy down, if closes down then .eof else .stillOpen⟩ := by
   cases hu : closes up <;> cases hd : closes down <;>
   simp [receive, handleConnect, handleConnectWith, upPump, downPump, run_shape, Pump.finished,
@@ -98,9 +98,9 @@ call were added): once the tunnel is released, a target that had `lost > 0` byte
 way reads a strictly shorter stream, ended by a reset. This is why the absence of socket options
 on the tunnel connections is pinned as a regenerated fact, and why the harness closes tunnels with
 multi-MiB uploads in flight towards slow readers. -/
-theorem abortive_final_close_truncates (cfg : Cfg) (ahead early : Bytes) (up down : List Ev)
+theorem abortive_final_close_truncates (cfg : Cfg) (st : Nat) (ahead early : Bytes) (up down : List Ev)
     (lost : Nat) (hu : closes up = true) (hd : closes down = true) (hl : 0 < lost) :
-    receive lost (handleConnectWith .abortive cfg (.ok ahead) early up down).toTarget =
+    receive lost (handleConnectWith .abortive cfg (.answered st ahead) early up down).toTarget =
       ⟨(early ++ sentBy up).take ((early ++ sentBy up).length - lost), .reset⟩ := by
   have hl' : lost ≠ 0 := by omega
   simp [receive, handleConnectWith, upPump, downPump, run_shape, Pump.finished,
@@ -108,22 +108,22 @@ theorem abortive_final_close_truncates (cfg : Cfg) (ahead early : Bytes) (up dow
 
 /-- … and nothing is visible when nothing was outstanding, which is why exchanges of a few KiB with
 a fast reader do not notice an abortive close. -/
-theorem abortive_final_close_invisible_when_nothing_outstanding (cfg : Cfg) (ahead early : Bytes)
+theorem abortive_final_close_invisible_when_nothing_outstanding (cfg : Cfg) (st : Nat) (ahead early : Bytes)
     (up down : List Ev) (hu : closes up = true) (hd : closes down = true) :
-    receive 0 (handleConnectWith .abortive cfg (.ok ahead) early up down).toTarget =
-      receive 0 (handleConnect cfg (.ok ahead) early up down).toTarget := by
+    receive 0 (handleConnectWith .abortive cfg (.answered st ahead) early up down).toTarget =
+      receive 0 (handleConnect cfg (.answered st ahead) early up down).toTarget := by
   simp [receive, handleConnect, handleConnectWith, upPump, downPump, run_shape, Pump.finished,
     writesOf_flatten, hu, hd, (show (endOf up).isSome = _ from hu), (show (endOf down).isSome = _ from hd)]
 
 /-- Concrete witness (test): target finished first, the client uploads 6 bytes and closes while 4
 are still on their way; with an abortive close the target reads 2 bytes and a reset. -/
 theorem abortive_final_close_counterexample :
-    receive 4 (handleConnectWith .abortive ⟨⟨true, true⟩, ⟨true, true⟩⟩ (.ok []) []
+    receive 4 (handleConnectWith .abortive ⟨⟨true, true⟩, ⟨true, true⟩⟩ (.answered 200 []) []
       [.data [1, 2, 3, 4, 5, 6], .eof] [.eof]).toTarget = ⟨[1, 2], .reset⟩ ∧
-    receive 4 (handleConnect ⟨⟨true, true⟩, ⟨true, true⟩⟩ (.ok []) []
+    receive 4 (handleConnect ⟨⟨true, true⟩, ⟨true, true⟩⟩ (.answered 200 []) []
       [.data [1, 2, 3, 4, 5, 6], .eof] [.eof]).toTarget = ⟨[1, 2, 3, 4, 5, 6], .eof⟩ := by
   constructor
-  · rw [abortive_final_close_truncates _ _ _ _ _ 4 (by decide) (by decide) (by decide)]
+  · rw [abortive_final_close_truncates _ _ _ _ _ _ 4 (by decide) (by decide) (by decide)]
     simp [sentBy, Ev.ending, Ev.accepted]
   · rw [every_byte_before_close_reaches_target]
     simp [sentBy, closes, endOf, Ev.ending, Ev.accepted]
@@ -137,12 +137,12 @@ example : endOf [Ev.data [1], .eof] = some .eof ∧ endOf [Ev.data [1], .rerr] =
 told end-of-stream; the client then keeps sending: the other copy ends on its write error and the
 tunnel is released without waiting for the client. -/
 example :
-    let o := handleConnect ⟨⟨true, true⟩, ⟨true, true⟩⟩ (.ok []) [] [.data [1, 2]] [.data [9], .rerr]
+    let o := handleConnect ⟨⟨true, true⟩, ⟨true, true⟩⟩ (.answered 200 []) [] [.data [1, 2]] [.data [9], .rerr]
     eofSeen o.toClient = true ∧ bytesOf o.toClient = [9] ∧ o.released = false := by
   simp [handleConnect, handleConnectWith, upPump, downPump, run_shape, closes, endOf, Ev.ending, Ev.accepted,
     Pump.finished, closeActs, releaseActs, optWrite, writesOf, chunks_flatten, eofSeen, bytesOf]
 example :
-    let o := handleConnect ⟨⟨true, true⟩, ⟨true, true⟩⟩ (.ok []) [] [.data [1, 2], .dataW [3, 4, 5] 1] [.data [9], .rerr]
+    let o := handleConnect ⟨⟨true, true⟩, ⟨true, true⟩⟩ (.answered 200 []) [] [.data [1, 2], .dataW [3, 4, 5] 1] [.data [9], .rerr]
     o.released = true ∧ bytesOf o.toTarget = [1, 2, 3] ∧ finalClose o.toClient = some .graceful := by
   simp [handleConnect, handleConnectWith, upPump, downPump, run_shape, closes, endOf, Ev.ending,
     Ev.accepted, Pump.finished, closeActs, releaseActs, optWrite, sentBy, writesOf_flatten, bytesOf, finalClose]
